@@ -1175,6 +1175,12 @@ func (c *clipperBase) isContributingClosed(ae *Active) bool {
 		if math.Abs(float64(ae.windCount)) != 1 {
 			return false
 		}
+	case EvenOdd:
+	default:
+		// every other fill rule switch treats an out-of-range value like NonZero
+		if math.Abs(float64(ae.windCount)) != 1 {
+			return false
+		}
 	}
 
 	switch c.clipType {
